@@ -29,11 +29,13 @@ RULES = [
     (16, "ProvidedRequiredArgumentsRule"), (17, "ValuesOfCorrectTypeRule"), (18, "VariablesAreInputTypesRule"),
     (19, "VariablesInAllowedPositionRule"), (20, "KnownTypeNamesRule"), (21, "FragmentsOnCompositeTypesRule"),
     (22, "PossibleFragmentSpreadsRule"),
+    # re-modelled over the typed descent (the typing theorem uses these formulations)
+    (9, "NoUndefinedVariablesRule"), (12, "UniqueInputFieldNamesRule"),
 ]
 RULE_NAME = {c: n for c, n in RULES}
 # rules of Valid/Rules.v the typing theorem needs in addition
-EXTRA = ["UniqueFragmentNamesRule", "UniqueVariableNamesRule", "NoUndefinedVariablesRule",
-         "UniqueInputFieldNamesRule", "UniqueArgumentNamesRule"]
+EXTRA = ["KnownFragmentNamesRule", "NoFragmentCyclesRule", "UniqueFragmentNamesRule", "UniqueVariableNamesRule",
+         "NoUndefinedVariablesRule", "UniqueInputFieldNamesRule", "UniqueArgumentNamesRule"]
 
 ASSUMPTIONS = [
     "CRULES13 model: Valid/Rules13.v - ten schema-dependent rules as functions of the parser AST and the execution "
@@ -326,6 +328,11 @@ def judge(ck, schema, sdl, classes, text, opname, label, doc, a0, a1, a2):
             nerr += len(a)
             ck.count(f"docs_with_{name}")
         mm = model.get(code, [])
+        if code == 17 and any(None in ps for _, ps in a):
+            # a list / object literal where a scalar or enum is expected: the implementation's error points at a
+            # location-less copy made by replace_variables (reported as a finding; not C13's subject): such errors
+            # are matched against the model's errors at list / object literals
+            a, mm = match_foreign(ck, doc, a, mm)
         if Counter(a) != Counter(mm):
             ck.violation(f"model13:{name}:{text!r}",
                          f"{name} reports {fmt(a)} but the model {fmt(mm)} on {text[:160]!r}",
@@ -352,8 +359,11 @@ def judge(ck, schema, sdl, classes, text, opname, label, doc, a0, a1, a2):
                          f"to_exec differs from gen_exec.enc_doc on {text[:160]!r}: model {'undefined' if got is None else 'another tree'}",
                          dict(replay, relation="Valid/ToExec.to_exec = gen_exec.enc_doc (float ratios ignored)"))
     # silent => well_typed
-    if a2 and len(a2) == 5:
-        m_silent, m_extra, m_def, m_wt, m_sok = a2
+    if a2 and len(a2) == 6:
+        m_silent, m_extra, m_def, m_wt, m_sok, m_locdef = a2
+        if m_locdef:
+            ck.count("finding_location_default_ignored_in_fragment", m_locdef)
+            ck.count("docs_with_finding_location_default_ignored_in_fragment")
         if m_sok != 1:
             ck.count("schema_not_schema_ok")
         if (m_silent == 1) != impl_silent and not any(k.startswith("raised_") for k in ()):
@@ -383,6 +393,27 @@ def judge(ck, schema, sdl, classes, text, opname, label, doc, a0, a1, a2):
     nontrivial = nerr > 0 or (impl_silent and any(x in text for x in ("...", "$", "@")))
     ck.note_case(("crules13", sdl, text), nontrivial=nontrivial,
                  sample={"text": text[:200], "errors": nerr} if nerr and label != "generated" else None)
+
+
+def match_foreign(ck, doc, a, mm):
+    from graphql.language import ast as A
+    ca, cm = Counter(a), Counter(mm)
+    common_ = ca & cm
+    ra, rm = list((ca - common_).elements()), list((cm - common_).elements())
+    foreign = [x for x in ra if None in x[1]]
+    ra = [x for x in ra if None not in x[1]]
+    keep = []
+    for x in rm:
+        try:
+            n = crules.node_at(doc, x[1][0])
+        except Exception:  # noqa: BLE001
+            n = None
+        if foreign and isinstance(n, (A.ListValueNode, A.ObjectValueNode)):
+            foreign.pop()
+            ck.count("finding_error_without_location")
+        else:
+            keep.append(x)
+    return ra + foreign, keep
 
 
 def _nf(ints):
